@@ -48,6 +48,11 @@ def run(ctx):
     S.wakeup_last(ctx, S.SimCtx(prog), 'R7.6')
     # independence of where the run was paused: no notification exists only because of a pause
     S.time_changed_sites(ctx, S.SimCtx(prog), 'R7.7')
+    # independence of where the run was paused: a pause may not lose or repeat an event -- every popped event is executed exactly once
+    # on every path, including the path on which the run notices the stop request (shared rule with C02)
+    S.r21_typestate(ctx, S.SimCtx(prog))
+    # two simulators in one process must not influence each other's order
+    S.shared_state(ctx, S.SimCtx(prog), 'R7.8')
 
 
 def set_typed_names(prog):
